@@ -448,13 +448,15 @@ func RunCoh(c *core.Ctx) {
 					continue
 				}
 				idxExpr := base + "_enumTypes[" + strconv.Itoa(i) + "]"
-				wantBodies := map[string]string{
-					"String":     "return protoimpl.X.EnumStringOf(x.Descriptor(), protoreflect.EnumNumber(x))",
-					"Descriptor": "return " + idxExpr + ".Descriptor()",
-					"Type":       "return &" + idxExpr,
-					"Number":     "return protoreflect.EnumNumber(x)",
+				wantBodies := map[string][]string{
+					// (x.Number() is held to its own form below)
+					"String":     {"return protoimpl.X.EnumStringOf(x.Descriptor(), protoreflect.EnumNumber(x))", "return protoimpl.X.EnumStringOf(x.Descriptor(), x.Number())"},
+					"Descriptor": {"return " + idxExpr + ".Descriptor()", "return x.Type().Descriptor()"},
+					"Type":       {"return &" + idxExpr},
+					"Number":     {"return protoreflect.EnumNumber(x)"},
 				}
-				for mn, want := range wantBodies {
+				for mn, wants := range wantBodies {
+					want := wants[0]
 					fd := g.Funcs[e.GoName+"."+mn]
 					con := fmt.Sprintf("%s.%s.%s", g.Name, e.GoName, mn)
 					if fd == nil {
@@ -462,7 +464,7 @@ func RunCoh(c *core.Ctx) {
 						continue
 					}
 					got, cerr := canonBody(g, fd)
-					c.Check(cerr == "" && got == want, "COH.enum", con, want, fmt.Sprintf("method does: %s ; expected: %s", got, want), pos(c, g, fd.Pos()), src)
+					c.Check(cerr == "" && in(got, wants), "COH.enum", con, want, fmt.Sprintf("method does: %s ; expected: %s", got, want), pos(c, g, fd.Pos()), src)
 				}
 				// name/value maps and constants
 				checkEnumMaps(c, g, e)
@@ -472,6 +474,65 @@ func RunCoh(c *core.Ctx) {
 			checkInitChain(c, g, v, base, fdesc)
 			checkExtensions(c, g, base, fdesc)
 			checkRawDescGZIP(c, g, base)
+			// legacy Descriptor() / EnumDescriptor(): the compressed descriptor of this file plus the index path of the
+			// declaration inside it (top-level index first)
+			pathOf := func(d protoreflect.Descriptor) []int64 {
+				var p []int64
+				for ; d != nil; d = d.Parent() {
+					if _, isFile := d.(protoreflect.FileDescriptor); isFile {
+						break
+					}
+					p = append([]int64{int64(d.Index())}, p...)
+				}
+				return p
+			}
+			legacyPath := func(goName, method string, d protoreflect.Descriptor) {
+				fd := g.Funcs[goName+"."+method]
+				con := fmt.Sprintf("%s.%s.%s index path", g.Name, goName, method)
+				if fd == nil {
+					c.Fail("COH.legacy", con, "legacy method not found", "", src)
+					return
+				}
+				want := pathOf(d)
+				ok := false
+				var got []int64
+				if len(fd.Body.List) == 1 {
+					if rs, isRet := fd.Body.List[0].(*ast.ReturnStmt); isRet && len(rs.Results) == 2 {
+						call, isCall := ast.Unparen(rs.Results[0]).(*ast.CallExpr)
+						cl, isLit := ast.Unparen(rs.Results[1]).(*ast.CompositeLit)
+						if isCall && isLit && len(call.Args) == 0 && types.ExprString(call.Fun) == base+"_rawDescGZIP" {
+							ok = true
+							for _, e := range cl.Elts {
+								k, isK := constIntE(info, e)
+								if !isK {
+									ok = false
+								}
+								got = append(got, k)
+							}
+							if len(got) != len(want) {
+								ok = false
+							}
+							for i := range want {
+								if ok && got[i] != want[i] {
+									ok = false
+								}
+							}
+						}
+					}
+				}
+				c.Check(ok, "COH.legacy", con, fmt.Sprintf("returns %s_rawDescGZIP() and the path %v", base, want),
+					fmt.Sprintf("does not return %s_rawDescGZIP() with the declaration's index path %v (found %v)", base, want, got), pos(c, g, fd.Pos()), src)
+			}
+			for _, md := range msgs {
+				if m := msgGo[md.FullName()]; m != nil && !md.IsMapEntry() {
+					legacyPath(m.GoName, "Descriptor", md)
+				}
+			}
+			for _, ed := range enums {
+				if e := enumGo[ed.FullName()]; e != nil {
+					legacyPath(e.GoName, "EnumDescriptor", ed)
+				}
+			}
 			checkMsgInfos(c, g, base, msgs, msgGo)
 		}
 		// ---- per message API
@@ -1184,6 +1245,29 @@ func checkGetter(c *core.Ctx, g *model.GenPkg, m *model.Msg, f *model.Field) {
 			want = append(want, "if %v, %ok := x.Get"+f.Oneof.GoName+"().(*"+tq(f.Wrapper)+"); %ok {return %v."+f.GoName+"}; return "+z)
 		} else {
 			want = append(want, "if (x != nil) {return x."+f.GoName+"}; return "+z, "if (x == nil) {return "+z+"}; return x."+f.GoName)
+		}
+	}
+	if f.Oneof != nil && !(cerr == "" && in(got, want)) {
+		// another arrangement of the same tests: decided on every shape of the oneof
+		mi := memberIndex(f.Oneof, f)
+		e := newOneofEval(g, fd, f.Oneof, f.Oneof.Members)
+		spec := func(sh oneofShape) []string {
+			var out []string
+			if sh.member == mi && !sh.nilPtr {
+				return []string{"return %w." + f.GoName}
+			}
+			for _, z := range zeros {
+				out = append(out, "return "+z)
+			}
+			if sh.member == mi {
+				// a nil wrapper pointer of this member: protoc-gen-go's getter dereferences it; returning the default is as good
+				out = append(out, "nilderef")
+			}
+			return out
+		}
+		if ok, _ := decideOneof(e, fd.Body.List, len(f.Oneof.Members), spec); mi >= 0 && ok {
+			c.Ok("COH.getter", con, "the member's value when it is held, the default otherwise — in every shape of the oneof, evaluated on the syntax tree", pos(c, g, fd.Pos()), src)
+			return
 		}
 	}
 	c.Check(cerr == "" && in(got, want), "COH.getter", con, got, "getter does: "+got+" ; expected: "+want[0], pos(c, g, fd.Pos()), src)
